@@ -18,7 +18,7 @@ TraceSkip == SkipStep /\ UNCHANGED vars
 EvRow == [ext |-> Ev.ext, mime |-> Ev.mime, size |-> Ev.size, kind |-> Ev.kind, cipher |-> Ev.cipher, gzin |-> Ev.gzin,
           fn |-> Ev.fn]
 (* one random byte sniffs as text or as binary depending on the byte: no prediction for it *)
-AsPredicted == (Ev.res = "ok" /\ ~Malformed(EvRow) /\ ~(Ev.kind = "rand" /\ Ev.size = "s1" /\ Ev.mime = "none")) =>
+AsPredicted == (Ev.res = "ok" /\ ~Malformed(EvRow) /\ ~(Ev.kind \in {"rand", "gzprefix"} /\ Ev.size = "s1" /\ Ev.mime = "none")) =>
                  (Ev.gzip = Stored(EvRow).rgzip /\ Ev.haskey = Stored(EvRow).key /\ Ev.rsize = Ev.len)
 TUpload == /\ IsEvent("upload") /\ Strict
            /\ Advisory => AsPredicted
